@@ -142,14 +142,18 @@ def reexpress(R, x, ua, ub, exact):
     return float(Fraction(x) * fa / fb)
 
 
+_MAGTYPE = ["float"]
+
+
 def eval_pint(node, which, ureg, R, exact, stats):
     t = node["t"]
     if t == "num":
         return node["n"]
     if t == "q":
+        mt = (lambda v: Fraction(v)) if (_MAGTYPE[0] == "Fraction" and not exact) else (lambda v: v)  # exact rational magnitudes in the float registry
         if which == "a":
-            return ureg.Quantity(Fraction(node["x"]) if exact else node["x"], node["ua"])
-        return ureg.Quantity(reexpress(R, node["x"], node["ua"], node["ub"], exact), node["ub"])
+            return ureg.Quantity(Fraction(node["x"]) if exact else mt(node["x"]), node["ua"])
+        return ureg.Quantity(mt(reexpress(R, node["x"], node["ua"], node["ub"], exact)), node["ub"])
     if t == "un":
         v = eval_pint(node["a"], which, ureg, R, exact, stats)
         return -v if node["op"] == "neg" else abs(v)
@@ -292,7 +296,13 @@ def _has_negative_pow(node):
 
 def case_exact(case, col=None, exact=True):
     R = env.R()
-    ureg = env.ureg("Fraction" if exact else "float")
+    # configurations: auto_reduce_dimensions (results are compared as physical values, so reduced units are fine); Fraction magnitudes in
+    # the float registry
+    kw = {"auto_reduce_dimensions": True} if case.get("autoreduce") else {}
+    ureg = env.ureg("Fraction" if exact else "float", **kw)
+    _MAGTYPE[0] = case.get("magtype", "float")
+    if col is not None and (kw or _MAGTYPE[0] != "float"):
+        col.count("config:" + ("autoreduce" if kw else "") + ("+fraction_magnitudes" if _MAGTYPE[0] != "float" else ""))
     tree = case["tree"]
     if exact and _neg_pow_over_floordiv(tree):
         if col is not None:
@@ -488,7 +498,8 @@ def _leaves_differ(n):
 
 
 def run_exact(task, tier, seed, col):
-    hyp_search(col, _tree_strategy(True), lambda c: case_exact(c, col, True), max_examples=700 if tier == "quick" else 12000,
+    strat = st.builds(lambda c, ar: dict(c, autoreduce=ar), _tree_strategy(True), st.sampled_from([False, False, False, True]))
+    hyp_search(col, strat, lambda c: case_exact(c, col, True), max_examples=700 if tier == "quick" else 12000,
                seed=seed * 83 + task["shard"])
 
 
@@ -497,7 +508,8 @@ def case_float(case, col=None):
 
 
 def run_float(task, tier, seed, col):
-    hyp_search(col, _tree_strategy(False), lambda c: case_float(c, col), max_examples=500 if tier == "quick" else 8000, seed=seed * 89 + task["shard"])
+    strat = st.builds(lambda c, mt, ar: dict(c, magtype=mt, autoreduce=ar), _tree_strategy(False), st.sampled_from(["float", "float", "Fraction"]), st.sampled_from([False, False, False, True]))
+    hyp_search(col, strat, lambda c: case_float(c, col), max_examples=500 if tier == "quick" else 8000, seed=seed * 89 + task["shard"])
 
 
 # ------------------------------------------------------------------------------------- operator forms
